@@ -24,8 +24,8 @@ LEVEL_NOTE = "Trusted: the harness's stability-scale precondition; tolerance 1e-
 
 def budget(tier):
     if tier == "quick":
-        return dict(max_examples=420, workers=6, time_s=170, min_cases=100)
-    return dict(max_examples=3000, workers=16, time_s=1200, min_cases=200)
+        return dict(max_examples=1000, workers=8, time_s=170, min_cases=250)
+    return dict(max_examples=40000, workers=16, time_s=1200, min_cases=500)
 
 
 @st.composite
